@@ -448,9 +448,16 @@ def parse_mir(text, want=None):
     i, n = 0, len(lines)
     while i < n:
         line = lines[i]
+        mk = re.match(r"^(?:const|static) ([\w:]+): (.+?) = (const .+);$", line)
+        if mk:
+            f = Function(mk.group(1), [], mk.group(2), line)
+            f.blocks[0] = ["_0 = %s;" % mk.group(3), "return;"]
+            funcs.setdefault(mk.group(1), f)
+            i += 1
+            continue
         m = re.match(r"^fn (.+?)\((.*)\)(?: -> (.*))? \{$", line)
         if not m:
-            mc = re.match(r"^const (.*::promoted\[\d+\]): (.*) = \{$", line)
+            mc = re.match(r"^const (.*::promoted\[\d+\]): (.*) = \{$", line) or re.match(r"^(?:const|static) ([\w:]+): (.*) = \{$", line)
             if mc:
                 m = re.match(r"^(.*)()()$", mc.group(1))   # promoted constant: a nullary function
         if not m or line.startswith("    "):
